@@ -120,6 +120,21 @@ m("c14_destination_name_sort", "C14", ND, "        rho_firsts = engine.vcat(\n  
 m("x_shared_graph_by_name", "C09 C08", N, "        self._graph = nx.DiGraph(name=name)", "        self._graph = _GRAPHS.setdefault(name, nx.DiGraph(name=name))\n\n    global _GRAPHS\n    _GRAPHS = {}")
 m("x_class_level_lookup_cache", "C08", N, "    @cached_property\n    def links_by_name(self) -> dict[str, Link[VarType]]:\n        return {  # type: ignore[var-annotated]\n            link.name: link for _, _, link in self.links\n        }", "    @property\n    def links_by_name(self) -> dict[str, Link[VarType]]:\n        k = len(self._graph.edges)\n        if _LBN.get('k') != k:\n            _LBN['k'] = k\n            _LBN['v'] = {link.name: link for _, _, link in self.links}\n        return _LBN['v']\n\n    global _LBN\n    _LBN = {}")
 
+# ---- BENIGN changes: the property still holds, every check must stay silent (ids start with ok_)
+ALL = "C06 C08 C09 C12 C13 C14 C19"
+m("ok_addpath_materialise_first", ALL, N, "        path = iter(path)\n        first_node = next(path)", "        path = iter(list(path))\n        first_node = next(path)")
+m("ok_addnodes_materialise_first", ALL, N, "        for node in nodes:\n            self.add_node(node)", "        for node in list(nodes):\n            self.add_node(node)")
+m("ok_addlinks_materialise_first", ALL, N, "        for node_up, link, node_down in links:\n            self.add_link(node_up, link, node_down)", "        for node_up, link, node_down in tuple(links):\n            self.add_link(node_up, link, node_down)")
+m("ok_use_case_insensitive", ALL, CO, "        engines = get_available_engines()\n        if engine not in engines:", "        engines = get_available_engines()\n        engine = engine.lower() if isinstance(engine, str) else engine\n        if engine not in engines:")
+m("ok_invalidate_before_and_after", ALL, "util/funcs.py", "            return func(*args, **kwargs)\n\n        return wrapper", "            try:\n                return func(*args, **kwargs)\n            finally:\n                if invalidate_cached_properties is not None and args:\n                    invalidate_cached_properties(args[0])\n\n        return wrapper")
+m("ok_isvalid_messages_reworded", ALL, N, "                msgs.append(f\"Node {node.name} is connected to no link.\")", "                msgs.append(f\"Isolated node: {node.name!r}.\")")
+mm("ok_flow_share_reassociated", ALL, [(NP, "        return (beta / np.sum(betas, 0)) * Q", "        return (beta * Q) / np.sum(betas, 0)"), (CA, "        return (beta / cs.sum1(betas)) * Q", "        return (beta * Q) / cs.sum1(betas)")])
+m("ok_symbol_names_changed", ALL, LK, "                else engine.var(f\"{name}_{self.name}\", self.N)", "                else engine.var(f\"{self.name}.{name}\", self.N)")
+m("ok_tofunction_error_text", ALL, CA, "                    f\"Found no next state in {el.name}; perhaps dynamics have \"\n                    \"not been stepped via `net.step`?\"", "                    f\"Element {el.name} has not been stepped.\"")
+m("ok_step_clears_next_states_first", ALL, N, "        # initialization\n        if init_conditions is None:\n            init_conditions = {}", "        # initialization\n        for el in self.elements:\n            el.next_states = None\n        if init_conditions is None:\n            init_conditions = {}")
+m("ok_addpath_checks_types_upfront", ALL, N, "        path = iter(path)\n        first_node = next(path)", "        path = list(path)\n        if len(path) > 1:\n            for i_, p_ in enumerate(path):\n                if not isinstance(p_, Link if i_ % 2 else Node):\n                    raise TypeError(f'bad path element at {i_}')\n            if len(path) % 2 == 0:\n                raise TypeError('path must end with a node')\n        path = iter(path)\n        first_node = next(path)")
+m("ok_isvalid_returns_tuple_msgs", ALL, N, "        return not msgs, msgs", "        return not msgs, list(msgs)")
+
 def run(prop, src, runs):
     env = dict(os.environ, SYM_METANET_SRC=src)
     p = subprocess.run(["/venv/bin/python", "-m", "sim.check", prop, "--runs", str(runs), "--no-evidence"], cwd="/verif", env=env, capture_output=True, text=True, timeout=1800)
@@ -152,8 +167,9 @@ def main():
             for p in ps:
                 if props and p not in props: continue
                 rc, viol = run(p, os.path.join(tmp, "src"), runs)
-                tag = {0: "MISSED", 1: "caught", 2: "harness"}.get(rc, f"rc={rc}")
-                if rc != 1: missed.append((id, p))
+                benign = id.startswith("ok_")
+                tag = ({0: "silent (ok)", 1: "FALSE ALARM", 2: "harness"} if benign else {0: "MISSED", 1: "caught", 2: "harness"}).get(rc, f"rc={rc}")
+                if (rc != 0) if benign else (rc != 1): missed.append((id, p))
                 print(f"{id} [{p}]: {tag} {viol[0][:150] if viol else ''}", flush=True)
     finally:
         shutil.rmtree(tmp, ignore_errors=True)
